@@ -2,20 +2,27 @@ package c14
 
 import (
 	"context"
+	"encoding/json"
 	"fmt"
 	"math/big"
+	"net/http/httptest"
 	"sort"
 	"strings"
 	"testing"
+	"time"
 
 	"github.com/99designs/gqlgen/complexity"
 	"github.com/99designs/gqlgen/graphql"
 	"github.com/99designs/gqlgen/graphql/executor"
+	"github.com/99designs/gqlgen/graphql/handler"
 	"github.com/99designs/gqlgen/graphql/handler/extension"
+	"github.com/99designs/gqlgen/graphql/handler/transport"
+	"github.com/gorilla/websocket"
 	"github.com/vektah/gqlparser/v2/ast"
 	"github.com/vektah/gqlparser/v2/gqlerror"
 	"pgregory.net/rapid"
 
+	"vh/hsrv"
 	"vh/kit"
 	"vh/opgen"
 	"vh/plan"
@@ -163,6 +170,9 @@ type Case struct {
 	// ComplexityLimit and has an operation-parameter hook of its own; "among" = the fixed limit
 	// between two other extensions
 	Install string `json:"install,omitempty"`
+	// Via: also send the operation to a handler.Server that has the limit, over this transport
+	// ("post", "get", "sse", "ws"); "" = the executor API only
+	Via string `json:"via,omitempty"`
 }
 
 // tenantLimit: a user extension built on the stock one, as a per-tenant limit would be.
@@ -320,6 +330,11 @@ func check(c Case) *vfrun.Failure {
 		}
 		if st, _ := rc.Stats.GetExtension("ComplexityLimit").(*extension.ComplexityStats); st == nil || st.Complexity != got || int64(st.ComplexityLimit) != limit {
 			return vfrun.Failf("complexity.stats", "[%s] ComplexityStats %+v, want complexity %d limit %d", s.P.Vec, st, got, limit)
+		}
+		if c.Via != "" && pr.Op.Operation == ast.Query {
+			if f := gateVia(s, c, int(limit), over); f != nil {
+				return f
+			}
 		}
 		if over {
 			vfrun.Label("rejected")
@@ -491,6 +506,7 @@ func gen(t *rapid.T) Case {
 	}
 	c.LimitRel = rapid.SampledFrom([]int{-2, -1, 0, 1, 2, 99, 99}).Draw(t, "limitrel")
 	c.Install = rapid.SampledFrom([]string{"", "", "func", "wrapped", "among"}).Draw(t, "install")
+	c.Via = rapid.SampledFrom([]string{"", "", "", "post", "get", "sse", "ws", "ws"}).Draw(t, "via")
 	c.Limit = rapid.SampledFrom([]int64{0, 1, 5, 20, 100, 1000, univ.MaxInt, univ.MaxInt - 1}).Draw(t, "limit")
 	return c
 }
@@ -563,4 +579,79 @@ func TestSafeAddGrid(t *testing.T) {
 	}
 	vfrun.SampleCat("grid", map[string]any{"grid_points": n, "values": grid})
 	vfrun.Label("safeadd-grid-exhaustive")
+}
+
+// gateVia sends the operation to a handler.Server with the limit configured, over one of gqlgen's
+// transports: the gate has to hold whatever carries the request.
+func gateVia(s *proj.Server, c Case, limit int, over bool) *vfrun.Failure {
+	h := handler.New(s.ES)
+	h.AddTransport(transport.Websocket{})
+	h.AddTransport(transport.SSE{})
+	h.AddTransport(transport.GET{})
+	h.AddTransport(transport.POST{})
+	h.Use(extension.FixedComplexityLimit(limit))
+	e := univ.NewExec(plan.New(1))
+	s.U.SetExec(e)
+	vars := ""
+	if len(c.Variables) > 0 {
+		b, _ := json.Marshal(c.Variables)
+		vars = string(b)
+	}
+	var answer string
+	switch c.Via {
+	case "ws":
+		srv := httptest.NewServer(h)
+		defer srv.Close()
+		d := websocket.Dialer{Subprotocols: []string{"graphql-transport-ws"}, HandshakeTimeout: 5 * time.Second}
+		conn, _, err := d.Dial("ws"+strings.TrimPrefix(srv.URL, "http"), nil)
+		if err != nil {
+			return vfrun.Failf("harness.dial", "%v", err)
+		}
+		defer conn.Close()
+		send := func(v any) { b, _ := json.Marshal(v); _ = conn.WriteMessage(websocket.TextMessage, b) }
+		send(map[string]any{"type": "connection_init"})
+		send(map[string]any{"type": "subscribe", "id": "1", "payload": map[string]any{"query": c.Query, "variables": c.Variables}})
+		_ = conn.SetReadDeadline(time.Now().Add(5 * time.Second))
+		for {
+			_, b, err := conn.ReadMessage()
+			if err != nil {
+				return vfrun.Failf("complexity.ws-operation-not-terminated", "[%s via ws] the operation received neither error nor complete (%v); frames %s", s.P.Vec, err, answer)
+			}
+			answer += string(b) + " | "
+			var f struct {
+				Type string `json:"type"`
+			}
+			_ = json.Unmarshal(b, &f)
+			if f.Type == "complete" || f.Type == "error" {
+				break
+			}
+		}
+		// give a wrongly started operation a moment to reach its resolvers
+		if over {
+			time.Sleep(20 * time.Millisecond)
+		}
+	default:
+		r := hsrv.Req{Transport: "post", Query: c.Query, HasQuery: true, Variables: vars, Headers: map[string]string{}}
+		switch c.Via {
+		case "get":
+			r.Transport = "get"
+		case "sse":
+			r.Headers["Accept"] = "text/event-stream"
+		}
+		res := hsrv.Serve(h, r.Build())
+		answer = string(res.Body)
+	}
+	ncalls := len(e.Keys("R")) + len(e.Keys("D"))
+	rejected := strings.Contains(answer, "exceeds the limit")
+	what := fmt.Sprintf("[%s via %s] limit %d", s.P.Vec, c.Via, limit)
+	switch {
+	case over && ncalls > 0:
+		return vfrun.Failf("complexity.gate-executed", "%s: the operation is over the limit, yet %d resolver/directive calls ran; answer %s", what, ncalls, answer)
+	case over && !rejected:
+		return vfrun.Failf("complexity.gate-open", "%s: the operation is over the limit but was not rejected; answer %s", what, answer)
+	case !over && rejected:
+		return vfrun.Failf("complexity.gate-closed", "%s: the operation is within the limit but was rejected; answer %s", what, answer)
+	}
+	vfrun.Label("gate-via:" + c.Via)
+	return nil
 }
